@@ -41,13 +41,14 @@ Theorem C12_unavailable_denies : forall cfg torc sorc s ho,
 Proof. exact unavailable_denies. Qed.
 Print Assumptions C12_unavailable_denies.
 
-(* Caches of different hosts are disjoint structures: an operation that does not concern host h2
-   (a request or eviction for another host, a replacement of another cluster, an endpoint status
-   change) leaves everything h2's token cache and SAR cache return unchanged. *)
-Theorem C12_no_shared_entry : forall cfg torc sorc s o h2,
-  ~ touches cfg o h2 ->
-  forall k, kc (ts (fst (step cfg torc sorc s o))) h2 k = kc (ts s) h2 k /\
-            kc (ss (fst (step cfg torc sorc s o))) h2 k = kc (ss s) h2 k.
+(* Caches are disjoint structures, one per (host, serving cluster): an operation that does not concern
+   the cache id2 = (h2, c2) (a request or eviction for another host, a replacement / deletion of another
+   cluster, an endpoint status change, a server name moving) leaves everything that token cache and
+   SAR cache return unchanged. *)
+Theorem C12_no_shared_entry : forall cfg torc sorc s o id2,
+  ~ touches o id2 ->
+  forall k, kc (ts (fst (step cfg torc sorc s o))) id2 k = kc (ts s) id2 k /\
+            kc (ss (fst (step cfg torc sorc s o))) id2 k = kc (ss s) id2 k.
 Proof. exact no_shared_entry. Qed.
 Print Assumptions C12_no_shared_entry.
 
@@ -56,14 +57,14 @@ Print Assumptions C12_no_shared_entry.
    not disabled ... *)
 Theorem C12_own_cluster : forall cfg torc sorc s o cl,
   In cl (out_calls (snd (step cfg torc sorc s o))) ->
-  exists h, op_host o = Some h /\ cluster_of cfg h = Some (fst cl) /\ snd cl = true /\
+  exists h, op_host o = Some h /\ cluster_of (eps s) h = Some (fst cl) /\ snd cl = true /\
     exists srv st, In (srv, st) (e_list (eps s) (fst cl)) /\ ep_ready st = true.
 Proof. exact own_cluster. Qed.
 Print Assumptions C12_own_cluster.
 
 (* ... and no other cluster is asked (its answer oracle is not advanced). *)
 Theorem C12_other_clusters_not_asked : forall cfg torc sorc s o c2,
-  (forall h, op_host o = Some h -> cluster_of cfg h <> Some c2) ->
+  (forall h, op_host o = Some h -> cluster_of (eps s) h <> Some c2) ->
   kn (ts (fst (step cfg torc sorc s o))) c2 = kn (ts s) c2 /\
   kn (ss (fst (step cfg torc sorc s o))) c2 = kn (ss s) c2.
 Proof. exact other_clusters_not_asked. Qed.
@@ -76,7 +77,7 @@ Print Assumptions C12_other_clusters_not_asked.
    sequential order, and the model's [Ovl a b] = "a then b" loses nothing. *)
 Theorem C12_overlap_commutes : forall cfg torc sorc s a b,
   is_request a = true -> is_request b = true ->
-  (op_cluster cfg a = None \/ op_cluster cfg b = None \/ op_cluster cfg a <> op_cluster cfg b) ->
+  (op_cluster (eps s) a = None \/ op_cluster (eps s) b = None \/ op_cluster (eps s) a <> op_cluster (eps s) b) ->
   let ra := step cfg torc sorc s a in
   let rab := step cfg torc sorc (fst ra) b in
   let rb := step cfg torc sorc s b in
@@ -91,7 +92,7 @@ Print Assumptions C12_overlap_commutes.
    (nothing but the Host decides either) ... *)
 Theorem C12_dispatch_cluster_is_review_cluster : forall cfg torc sorc s h tok imp now t z d,
   snd (stepx cfg torc sorc s (Chain h tok imp now)) = RC t z (Some d) ->
-  cluster_of cfg h = Some d /\
+  cluster_of (eps s) h = Some d /\
   (forall x cl, (t = Some x \/ z = Some x) -> In cl (out_calls x) -> fst cl = d /\ snd cl = true).
 Proof. exact chain_dispatch. Qed.
 Print Assumptions C12_dispatch_cluster_is_review_cluster.
@@ -102,6 +103,18 @@ Theorem C12_same_cluster_history : forall cfg torc sorc ops,
   snd (spec_ok cfg torc sorc (runx cfg torc sorc (init cfg) ops)) = true.
 Proof. exact dispatch_ok. Qed.
 Print Assumptions C12_same_cluster_history.
+
+(* What a request for host h gets depends on nothing but the endpoints, the cache (h, c) of the cluster c
+   that owns h NOW and c's own oracle: whatever was cached for h while it was a server name of another
+   cluster (or of an earlier incarnation, whose caches are dropped when it stops) cannot influence it. *)
+Theorem C12_owner_cache_only : forall cfg torc sorc s s' h c,
+  eps s = eps s' -> cluster_of (eps s) h = Some c ->
+  (forall k, kc (ts s) (h, c) k = kc (ts s') (h, c) k) -> kn (ts s) c = kn (ts s') c ->
+  (forall k, kc (ss s) (h, c) k = kc (ss s') (h, c) k) -> kn (ss s) c = kn (ss s') c ->
+  (forall tok now, snd (step cfg torc sorc s (OAuthn (Some h) tok now)) = snd (step cfg torc sorc s' (OAuthn (Some h) tok now))) /\
+  (forall a now, snd (step cfg torc sorc s (OAuthz (Some h) a now)) = snd (step cfg torc sorc s' (OAuthz (Some h) a now))).
+Proof. exact owner_cache_only. Qed.
+Print Assumptions C12_owner_cache_only.
 
 (* All five clauses of the executable specification hold on every history of the model. *)
 Theorem C12_history : forall cfg torc sorc ops,
@@ -161,16 +174,16 @@ Proof. vm_compute. reflexivity. Qed.
 Example C12_unavailable_denies_nonvacuous :
   let s := run_state ex_cfg ex_torc ex_sorc (init ex_cfg) [OHealthy "a0" true; OAuthn (Some "a") "tok" 0] in
   can_ask ex_cfg (eps s) (Some "b") = None /\
-  (exists v, kc (ts s) "a" ["tok"] = Some v) /\
+  (exists v, kc (ts s) ("a", "a") ["tok"] = Some v) /\
   snd (step ex_cfg ex_torc ex_sorc s (OAuthn (Some "b") "tok" 1))
   = OutT {| t_user := None; t_ok := false; t_err := ENoReady |} [].
 Proof. vm_compute. split; [reflexivity|]. split; [eexists; reflexivity|reflexivity]. Qed.
 
 (* the hypothesis of C12_no_shared_entry is satisfiable: a request for b while a's cache is filled *)
 Example C12_no_shared_entry_nonvacuous :
-  ~ touches ex_cfg (OAuthn (Some "b") "tok" 1) "a" /\ ~ touches ex_cfg (ORestart "b") "alias-a" /\
-  touches ex_cfg (ORestart "a") "alias-a".
-Proof. split; [|split]; vm_compute; [discriminate|discriminate|reflexivity]. Qed.
+  ~ touches (OAuthn (Some "b") "tok" 1) ("a", "a") /\ ~ touches (ORestart "b") ("alias-a", "a") /\
+  touches (ORestart "a") ("alias-a", "a") /\ ~ touches (OUnname "a" "alias-a") ("alias-a", "a").
+Proof. repeat split; vm_compute; try discriminate; tauto. Qed.
 
 (* the specification is not trivially true: a history in which host b is served cluster a's cached
    answer without any review (the cross-cluster leak) fails clause 4, and a review that reaches the
@@ -206,7 +219,7 @@ Example C12_overlap_nonvacuous :
       (OutS {| s_dec := DDeny; s_reason := "no@b"; s_err := ENone |} [("b", true)]);
    R1 (OutS {| s_dec := DDeny; s_reason := "no@b"; s_err := ENone |} [])]
   /\
-  (op_cluster ex_cfg (OAuthz (Some "a") ex_attrs 0) <> op_cluster ex_cfg (OAuthz (Some "b") ex_attrs 0))
+  (op_cluster (init_eps ex_cfg) (OAuthz (Some "a") ex_attrs 0) <> op_cluster (init_eps ex_cfg) (OAuthz (Some "b") ex_attrs 0))
   /\
   spec_ok ex_cfg ex_torc ex_sorc
     [(One (OHealthy "a0" true), R1 OutNone); (One (OHealthy "b0" true), R1 OutNone);
@@ -271,3 +284,56 @@ Example C12_chain_nonvacuous :
       RC (Some (OutT {| t_user := Some ("alice@a", "1"); t_ok := true; t_err := ENone |} [])) None (Some "b"))]
   = ((true, true, true, true), false).
 Proof. vm_compute. split; reflexivity. Qed.
+
+(* server names move between running clusters; clusters are deleted and re-created.
+   H1: a (alias h, allows) and b (denies); request via h -> a asked; h moves a -> b; same request via h
+       -> b asked (a's cached allow is NOT applied); h moves back to a -> a's entry, still within its TTL
+       and from the same incarnation, is used again.
+   H2: after the move and past the TTL b is asked and its answer cached; b is deleted and re-created; the
+       same request via h asks the new b.
+   The histories in which the moved host is served the old owner's cached answer without any review
+   fail clause 4. *)
+Example C12_moves_nonvacuous :
+  let cfg := {| reg := [("a", "a"); ("b", "b"); ("h", "a")]; servers := [("a", ["a0"]); ("b", ["b0"])];
+                sttl := 100; fttl := 100; attl := 100; dttl := 100; tretries := 3%nat; sretries := 4%nat |} in
+  let torc := script_orc (TFail 0 false) [("a", [TAuth "alice@a" "1"]); ("b", [TUnauth; TAuth "bob@b" "2"; TUnauth])] in
+  let sorc := script_orc (SFail 0 false) [("a", [SStatus true false "ok@a"]); ("b", [SStatus false true "no@b"; SStatus false false "none@b"])] in
+  let ops := [One (OHealthy "a0" true); One (OHealthy "b0" true);
+              One (OAuthn (Some "h") "t" 0); One (OAuthz (Some "h") ex_attrs 0);
+              One (OUnname "a" "h"); One (OAuthn (Some "h") "t" 1); One (OName "b" "h");
+              One (OAuthn (Some "h") "t" 2); One (OAuthz (Some "h") ex_attrs 2);
+              One (OUnname "b" "h"); One (OName "a" "h"); One (OAuthn (Some "h") "t" 3);
+              One (OUnname "a" "h"); One (OName "b" "h"); One (OAuthn (Some "h") "t" 200);
+              One (ODelete "b"); One (OAuthn (Some "h") "t" 201); One (ORecreate "b"); One (OName "b" "h");
+              One (OHealthy "b0" true); One (OAuthn (Some "h") "t" 202); One (OAuthz (Some "h") ex_attrs 202)] in
+  map snd (runx cfg torc sorc (init cfg) ops) =
+  [R1 OutNone; R1 OutNone;
+   R1 (OutT {| t_user := Some ("alice@a", "1"); t_ok := true; t_err := ENone |} [("a", true)]);
+   R1 (OutS {| s_dec := DAllow; s_reason := "ok@a"; s_err := ENone |} [("a", true)]);
+   R1 OutNone; R1 (OutT {| t_user := None; t_ok := false; t_err := ENotFound |} []); R1 OutNone;
+   R1 (OutT {| t_user := None; t_ok := false; t_err := ENone |} [("b", true)]);
+   R1 (OutS {| s_dec := DDeny; s_reason := "no@b"; s_err := ENone |} [("b", true)]);
+   R1 OutNone; R1 OutNone;
+   R1 (OutT {| t_user := Some ("alice@a", "1"); t_ok := true; t_err := ENone |} []);
+   R1 OutNone; R1 OutNone;
+   R1 (OutT {| t_user := Some ("bob@b", "2"); t_ok := true; t_err := ENone |} [("b", true)]);
+   R1 OutNone; R1 (OutT {| t_user := None; t_ok := false; t_err := ENotFound |} []); R1 OutNone; R1 OutNone;
+   R1 OutNone;
+   R1 (OutT {| t_user := None; t_ok := false; t_err := ENone |} [("b", true)]);
+   R1 (OutS {| s_dec := DNoOpinion; s_reason := "none@b"; s_err := ENone |} [("b", true)])]
+  /\
+  spec_ok cfg torc sorc
+    [(One (OHealthy "a0" true), R1 OutNone); (One (OHealthy "b0" true), R1 OutNone);
+     (One (OAuthz (Some "h") ex_attrs 0), R1 (OutS {| s_dec := DAllow; s_reason := "ok@a"; s_err := ENone |} [("a", true)]));
+     (One (OUnname "a" "h"), R1 OutNone); (One (OName "b" "h"), R1 OutNone);
+     (One (OAuthz (Some "h") ex_attrs 2), R1 (OutS {| s_dec := DAllow; s_reason := "ok@a"; s_err := ENone |} []))]
+  = ((true, true, true, false), true)
+  /\
+  spec_ok cfg torc sorc
+    [(One (OHealthy "b0" true), R1 OutNone); (One (OName "b" "x"), R1 OutNone);
+     (One (OAuthn (Some "x") "t" 0), R1 (OutT {| t_user := None; t_ok := false; t_err := ENone |} [("b", true)]));
+     (One (ODelete "b"), R1 OutNone); (One (ORecreate "b"), R1 OutNone); (One (OName "b" "x"), R1 OutNone);
+     (One (OHealthy "b0" true), R1 OutNone);
+     (One (OAuthn (Some "x") "t" 1), R1 (OutT {| t_user := None; t_ok := false; t_err := ENone |} []))]
+  = ((true, true, true, false), true).
+Proof. vm_compute. repeat split. Qed.
